@@ -213,3 +213,44 @@ Example C02_example_rejections :
   = [Err EOther; Err EOther; Err EOther; Err EOther; Err EOther; Err EOther; Err EOther].
 Proof. vm_compute. reflexivity. Qed.
 Print Assumptions C02_example_large_derivable.
+(* "every other number rounded to the nearest double ... numbers beyond the double range becoming infinities": the exact
+   integer algorithm Decimal.round_dec that the model uses for this is Flocq's IEEE-754 binary64 round-to-nearest-even
+   (FlocqLink.v).  Flocq's real-number development rests on the standard library's classical-real axioms (the four allowed). *)
+From Coq Require Import Reals.
+From Flocq Require Import Core.Core IEEE754.BinarySingleNaN IEEE754.Binary IEEE754.Bits.
+From JB Require Import Decimal FlocqLink.
+
+(* every sign, decimal mantissa and decimal exponent (positive or negative): the pattern returned denotes the nearest-even
+   rounding of +-m10 * 10^e10, or the infinity of that sign exactly when that rounding reaches 2^1024 *)
+Theorem C02_decimal_reader_is_flocq_nearest_even :
+  forall (neg : bool) (m10 e10 : Z), (0 <= m10)%Z ->
+  let x := F2R (Float radix10 (cond_Zopp neg m10) e10) in
+  let r := round radix2 (FLT_exp (-1074) 53) ZnearestE x in
+  let f := b64_of_bits (Z.of_N (round_dec neg m10 e10)) in
+  if Rlt_bool (Rabs r) (bpow radix2 1024)
+  then B2R 53 1024 f = r /\ is_finite 53 1024 f = true /\ Bsign 53 1024 f = neg
+  else f = B754_infinity 53 1024 neg.
+Proof. exact round_dec_is_nearest_even. Qed.
+Print Assumptions C02_decimal_reader_is_flocq_nearest_even.
+
+(* non-negative decimal exponent: both sides compute, and agree on overflow too *)
+Theorem C02_decimal_reader_is_flocq_binary_normalize :
+  forall (neg : bool) (m10 e10 : Z), (0 <= m10)%Z -> (0 <= e10)%Z ->
+  Z.of_N (round_dec neg m10 e10) =
+  bits_of_b64 (binary_normalize 53 1024 eq_refl eq_refl mode_NE (cond_Zopp neg m10 * 10 ^ e10) 0 neg).
+Proof. exact round_dec_is_flocq_binary_normalize. Qed.
+Print Assumptions C02_decimal_reader_is_flocq_binary_normalize.
+
+(* as the parser calls it: integer digits, fraction digits and exponent of a literal (ASCII digits are never below '0') *)
+Theorem C02_number_literal_is_nearest_even :
+  forall (neg : bool) (ids fds : list N) (e : Z),
+  Forall (fun d => (48 <= d)%N) ids -> Forall (fun d => (48 <= d)%N) fds ->
+  let m10 := digits_val fds (digits_val ids 0%Z) in
+  let e10 := (e - Z.of_nat (length fds))%Z in
+  let r := round radix2 (FLT_exp (-1074) 53) ZnearestE (F2R (Float radix10 (cond_Zopp neg m10) e10)) in
+  let f := b64_of_bits (Z.of_N (round_dec neg m10 e10)) in
+  if Rlt_bool (Rabs r) (bpow radix2 1024)
+  then B2R 53 1024 f = r /\ is_finite 53 1024 f = true /\ Bsign 53 1024 f = neg
+  else f = B754_infinity 53 1024 neg.
+Proof. exact decimal_literal_is_nearest_even. Qed.
+Print Assumptions C02_number_literal_is_nearest_even.
